@@ -714,6 +714,7 @@ compSavedFile(EmitInfo finfo)
 {
 	Foam	foam;
 	Stab	stab;
+	String	fileId = emitFileIdNameGiven();
  
 	compFileInit(finfo);
  
@@ -725,6 +726,10 @@ compSavedFile(EmitInfo finfo)
 	foamFree(foam);
  
 	compFileFini(finfo);
+
+	/* The file id read from a saved file names that file only, not the ones after it. */
+	emitSetFileIdName(fileId);
+
 	return comsgErrorCount();
 }
 
